@@ -33,6 +33,16 @@
 // wrappers (byte/type identity does not need a decodable block) but the "decodes to the
 // same block" clauses are then not applicable. Byron over NtN is outside the property
 // (recorded as an observation only).
+//
+// Result on the unchanged tree: no violation (quick 6 364 evaluations, thorough 57 550).
+// Observed outside the property: Byron EBB/main over NtN also keep header bytes and hash.
+//
+// Detection (scratch copy /tmp/c22agent-repo, VERIF_REPO_OVERRIDE, quick tier, deleted afterwards), each alone:
+//  1. ledger/era.go  BlockTypeDijkstra: BlockHeaderTypeConway (copy-paste when adding the era)
+//       -> NtN|era-does-not-map-back|dijkstra|original
+//  2. chainsync/wrappers.go NewWrappedHeader "normalises" the header (decode into any + re-encode)
+//       -> NtN|header-bytes-changed|<era>|reenc|header|{arr,bstr}->{non-minimal,indef} for all seven
+//          eras (28 keys); the original encodings survive, so only the re-encoded variants catch it.
 package main
 
 import (
@@ -41,6 +51,7 @@ import (
 	"encoding/json"
 	"fmt"
 	"os"
+	"sync"
 
 	"golang.org/x/crypto/blake2b"
 
@@ -145,12 +156,31 @@ func replayData(bc blockCase, mode, tip string) map[string]any {
 	return r
 }
 
+// violationKey: <mode>|<what>|<era>|<variant class>. One root cause = one key: when the same
+// clause already fails for the ORIGINAL encoding of a block of that era, its re-encodings
+// report under the original's key instead of one key per re-encoding class.
+var (
+	failedMu         sync.Mutex
+	failedOnOriginal = map[string]bool{}
+)
+
+func violationKey(mode, what string, bc blockCase) string {
+	base := fmt.Sprintf("%s|%s|%s", mode, what, eraName(bc.typ))
+	failedMu.Lock()
+	defer failedMu.Unlock()
+	if bc.class == "original" {
+		failedOnOriginal[base] = true
+	}
+	if failedOnOriginal[base] {
+		return base + "|original"
+	}
+	return base + "|" + bc.class
+}
+
 // ---------- NtC ----------
 
 func checkNtC(bc blockCase, tc tipCase, direct ledger.Block) {
-	key := func(what string) string {
-		return fmt.Sprintf("NtC|%s|%s|%s", what, eraName(bc.typ), bc.class)
-	}
+	key := func(what string) string { return violationKey("NtC", what, bc) }
 	rp := replayData(bc, "NtC", tc.name)
 	var pn string
 	var wire []byte
@@ -168,7 +198,7 @@ func checkNtC(bc blockCase, tc tipCase, direct ledger.Block) {
 			pn = "encode: " + err.Error()
 		}
 	}()
-	cls := fmt.Sprintf("NtC|%s|%s|tip=%s", bc.fixture, bc.class, tc.name)
+	cls := fmt.Sprintf("NtC|%s|%s|tip=%s", bc.fixture, bc.variant, tc.name)
 	if pn != "" {
 		c.Eval(cls, "NtC:server-cannot-serve")
 		if direct != nil {
@@ -210,6 +240,10 @@ func checkNtC(bc blockCase, tc tipCase, direct ledger.Block) {
 	if !bytes.Equal(got.BlockCbor(), bc.bytes) {
 		okAll = false
 		c.Violation(key("block-bytes-changed"), fmt.Sprintf("%s (%s): served %d bytes (%s), arrived %d bytes (%s)", bc.fixture, bc.variant, len(bc.bytes), vlib.Hex(bc.bytes), len(got.BlockCbor()), vlib.Hex(got.BlockCbor())), rp)
+	}
+	if !okAll {
+		c.Eval(cls, "NtC:identity-broken")
+		return
 	}
 	if direct == nil {
 		c.Eval(cls, "NtC:identity-checked(block-not-decodable)")
@@ -253,11 +287,9 @@ func checkNtC(bc blockCase, tc tipCase, direct ledger.Block) {
 // ---------- NtN ----------
 
 func checkNtN(bc blockCase, tc tipCase, direct ledger.Block) {
-	key := func(what string) string {
-		return fmt.Sprintf("NtN|%s|%s|%s", what, eraName(bc.typ), bc.class)
-	}
+	key := func(what string) string { return violationKey("NtN", what, bc) }
 	rp := replayData(bc, "NtN", tc.name)
-	cls := fmt.Sprintf("NtN|%s|%s|tip=%s", bc.fixture, bc.class, tc.name)
+	cls := fmt.Sprintf("NtN|%s|%s|tip=%s", bc.fixture, bc.variant, tc.name)
 	// server side, as Server.RollForward does
 	era, ok := ledger.BlockToBlockHeaderTypeMap[bc.typ]
 	if !ok {
@@ -320,7 +352,10 @@ func checkNtN(bc blockCase, tc tipCase, direct ledger.Block) {
 	}
 	gotHdr := got.WrappedHeader.HeaderCbor()
 	if !bytes.Equal(gotHdr, bc.hdr) {
-		c.Violation(key("header-bytes-changed"), fmt.Sprintf("%s (%s): arrived header (%d bytes, %s) is not the header item of the served block (%d bytes, %s)", bc.fixture, bc.variant, len(gotHdr), vlib.Hex(gotHdr), len(bc.hdr), vlib.Hex(bc.hdr)), rp)
+		// the hash clauses below would only restate this
+		c.Violation(key("header-bytes-changed"), fmt.Sprintf("%s (%s): arrived header (%d bytes, %s) is not the header item of the served block (%d bytes, %s); its hash is therefore not the block's hash %x", bc.fixture, bc.variant, len(gotHdr), vlib.Hex(gotHdr), len(bc.hdr), vlib.Hex(bc.hdr), h256(bc.hdr)), rp)
+		c.Eval(cls, "NtN:header-bytes-changed")
+		return
 	}
 	var hdr ledger.BlockHeader
 	func() {
@@ -417,14 +452,16 @@ func variants(f space.Fixture, depth int, pairs bool, emit func(blockCase)) {
 		switch {
 		case len(path) == 0:
 			return "block-array"
-		case path[0] == 0 && len(path) == 1:
-			return "header-array"
 		case path[0] == 0:
-			return fmt.Sprintf("header@d%d", len(path))
-		case len(path) == 1:
-			return fmt.Sprintf("body-element%d", path[0])
+			return "header"
 		}
-		return fmt.Sprintf("body@d%d", len(path))
+		return "body"
+	}
+	formClass := func(form int) string {
+		if form == space.FormIndef {
+			return "indef"
+		}
+		return "non-minimal"
 	}
 	filter := func(maxDepth int) func(n *space.Node, path []int) bool {
 		return func(n *space.Node, path []int) bool {
@@ -446,11 +483,11 @@ func variants(f space.Fixture, depth int, pairs bool, emit func(blockCase)) {
 		for _, form := range s.Alts {
 			s.Node.Form = form
 			mk(fmt.Sprintf("%s:%s->%s", pathS(s.Path), kinds[s.Node.Major], space.FormNames[form]),
-				fmt.Sprintf("reenc|%s|%s->%s", where(s.Path), kinds[s.Node.Major], space.FormNames[form]), tree.Encode())
+				fmt.Sprintf("reenc|%s|%s->%s", where(s.Path), kinds[s.Node.Major], formClass(form)), tree.Encode())
 		}
 		s.Node.Form = old
 	}
-	if pairs {
+	if pairs && len(f.Cbor) < 100000 {
 		outer := space.Sites(tree, filter(1))
 		for i, a := range outer {
 			oa := a.Node.Form
@@ -461,7 +498,7 @@ func variants(f space.Fixture, depth int, pairs bool, emit func(blockCase)) {
 					for _, fb := range b.Alts {
 						b.Node.Form = fb
 						mk(fmt.Sprintf("%s:%s->%s + %s:%s->%s", pathS(a.Path), kinds[a.Node.Major], space.FormNames[fa], pathS(b.Path), kinds[b.Node.Major], space.FormNames[fb]),
-							fmt.Sprintf("reenc2|%s|%s->%s|%s|%s->%s", where(a.Path), kinds[a.Node.Major], space.FormNames[fa], where(b.Path), kinds[b.Node.Major], space.FormNames[fb]), tree.Encode())
+							fmt.Sprintf("reenc2|%s|%s->%s|%s|%s->%s", where(a.Path), kinds[a.Node.Major], formClass(fa), where(b.Path), kinds[b.Node.Major], formClass(fb)), tree.Encode())
 					}
 					b.Node.Form = ob
 				}
@@ -529,8 +566,12 @@ func main() {
 			c.Internal("fixture %s does not decode as its own type (%s): nothing to compare against", f.Name, e)
 		}
 		tcs := tips()
-		vlib.Parallel(len(cases), func(i int) {
-			bc := cases[i]
+		// the original encoding first (see violationKey), then every variant in parallel
+		for _, tc := range tcs {
+			runCase(cases[0], tc)
+		}
+		vlib.Parallel(len(cases)-1, func(i int) {
+			bc := cases[i+1]
 			for ti, tc := range tcs {
 				// the three tips matter for the message framing only; large variants get one
 				if ti > 0 && (bc.variant != "original" && len(bc.bytes) > 100000) {
@@ -545,7 +586,11 @@ func main() {
 			msg, err := chainsync.NewMsgRollForwardNtC(bc.typ, bc.bytes, tcs[1].tip)
 			if err == nil {
 				w, _ := cbor.Encode(msg)
-				c.Sample(map[string]any{"fixture": f.Name, "type": f.Type, "block_bytes": len(bc.bytes), "block_hash_own": hex.EncodeToString(h256(bc.hdr)), "ntc_wire": vlib.Hex(w)})
+				smp := map[string]any{"fixture": f.Name, "type": f.Type, "block_bytes": len(bc.bytes), "ntc_wire": vlib.Hex(w)}
+				if f.Type >= 2 {
+					smp["block_hash_own_blake2b_of_header_item"] = hex.EncodeToString(h256(bc.hdr))
+				}
+				c.Sample(smp)
 			}
 		}
 	}
